@@ -122,6 +122,9 @@ func parseTrace(file, root string) ([]fsop, error) {
 			}
 		case "unlinkat", "unlink":
 			p, rest := quoted(args)
+			if name == "unlinkat" {
+				p, rest = atPath(args)
+			}
 			if under(p, root) {
 				k := "unlink"
 				if strings.Contains(rest, "AT_REMOVEDIR") {
@@ -152,6 +155,24 @@ func parseTrace(file, root string) ([]fsop, error) {
 }
 
 func under(p, root string) bool { return strings.HasPrefix(p, root) }
+
+// path argument of an *at call: `AT_FDCWD<cwd>, "name"` or `5</dir>, "name"` (os.RemoveAll walks a tree with
+// directory descriptors and relative names); returns the absolute path and the text after the name
+func atPath(args string) (string, string) {
+	name, rest := quoted(args)
+	if strings.HasPrefix(name, "/") || name == "" {
+		return name, rest
+	}
+	i := strings.Index(args, ",")
+	if i < 0 {
+		return name, rest
+	}
+	dir := fdPath(args[:i])
+	if dir == "" {
+		return name, rest
+	}
+	return strings.TrimSuffix(dir, "/") + "/" + name, rest
+}
 
 // first quoted string of s (strace -xx: every byte as \xNN) and the remainder
 func quoted(s string) (string, string) {
